@@ -413,7 +413,11 @@ func (e *Exec) CaseCoq(obs []Obs) string {
 			break
 		}
 	}
-	return "mkCase " + e.initCoq() + "\n  " + cList(evs) + "\n  " + cList(os)
+	var hd []string
+	for _, k := range e.HashDiff {
+		hd = append(hd, fmt.Sprint(k))
+	}
+	return "mkCase " + e.initCoq() + "\n  " + cList(evs) + "\n  " + cList(os) + "\n  " + cList(hd)
 }
 
 // typed events as (kind, tenant, record id); see Exec/Run.v
